@@ -1175,15 +1175,24 @@ class n0dict(n0dict_):
             # elif '=' in node_index:
             elif isinstance(node_index, tuple):
                 if node_index[0] == 'text()':
-                    if isinstance(parent_node, int):
-                        node_index[2] = int(node_index[2])
-                    elif isinstance(parent_node, float):
-                        node_index[2] = float(node_index[2])
+                    expected_value = node_index[2]
+                    if isinstance(expected_value, str):
+                        # Numeric node is compared as number: convert expected text into type of the node
+                        try:
+                            if isinstance(parent_node, int):
+                                expected_value = int(expected_value)
+                            elif isinstance(parent_node, float):
+                                expected_value = float(expected_value)
+                        except ValueError:
+                            pass  # Expected text is not a number, so it is not equal to numeric node
 
                     if node_index[1][1] == '=':
-                        comparing_result = parent_node == node_index[2]  # expected_value
+                        comparing_result = parent_node == expected_value
                     elif node_index[1][1] == '~':
-                        comparing_result = node_index[2] in parent_node  # expected_value
+                        try:
+                            comparing_result = expected_value in parent_node
+                        except TypeError:
+                            comparing_result = False  # Node is not text/container, so it contains nothing
                     else:
                         raise SyntaxError(f"Unknown comparing command in {str(node_index)}")
 
